@@ -76,6 +76,7 @@ type writeSet struct {
 	classes [nClasses]bool // whole heap classes forgotten
 	heap   map[string]heapKeyInfo
 	locals map[*ssa.Alloc]bool
+	ghosts map[string]bool
 }
 
 type heapKeyInfo struct {
@@ -86,7 +87,7 @@ type heapKeyInfo struct {
 }
 
 func newWriteSet() *writeSet {
-	return &writeSet{heap: map[string]heapKeyInfo{}, locals: map[*ssa.Alloc]bool{}}
+	return &writeSet{heap: map[string]heapKeyInfo{}, locals: map[*ssa.Alloc]bool{}, ghosts: map[string]bool{}}
 }
 
 func (w *writeSet) addAll(o *writeSet) {
@@ -103,6 +104,9 @@ func (w *writeSet) addAll(o *writeSet) {
 	}
 	for k := range o.locals {
 		w.locals[k] = true
+	}
+	for k := range o.ghosts {
+		w.ghosts[k] = true
 	}
 }
 
@@ -427,6 +431,26 @@ func (ex *Exec) loopWrites(fr *Frame, li *loopInfo, st *State) *writeSet {
 			}
 		}
 	}
+	// ghost variables updated by call-site clauses inside the loop
+	for b := range li.blocks {
+		for _, in := range b.Instrs {
+			var cc *ssa.CallCommon
+			switch x := in.(type) {
+			case ssa.CallInstruction:
+				cc = x.Common()
+			}
+			if cc == nil {
+				continue
+			}
+			if name := callName(cc); name != "" {
+				for _, cl := range ex.callSiteClauses(fr, name, ex.prog.callOrdinal(in, name)) {
+					for _, g := range cl.Sets {
+						ws.ghosts[g.Name] = true
+					}
+				}
+			}
+		}
+	}
 	// closures called in the loop may write captured cells
 	for b := range li.blocks {
 		for _, in := range b.Instrs {
@@ -570,6 +594,17 @@ func (ex *Exec) havocWrites(st *State, ws *writeSet) {
 			info := ws.heap[k]
 			ex.havocHeapKey(st, info.rootKey, info.comp, info.sort)
 		}
+	}
+	var gnames []string
+	for g := range ws.ghosts {
+		gnames = append(gnames, g)
+	}
+	sort.Strings(gnames)
+	for _, g := range gnames {
+		cur := ex.getGhost(st, g, nil)
+		hv, facts := ex.havoc(cur.T, "loopghost."+g)
+		st.ghost[g] = hv
+		ex.assume(st, facts)
 	}
 	var allocs []*ssa.Alloc
 	for a := range ws.locals {
